@@ -233,6 +233,9 @@ def spec_edits(case):
                 if f.get("alias"):
                     yield f"drop alias {c['name']}.{f['n']}", edit(
                         lambda cc, f_i=f_i: cc["fields"][f_i].pop("alias"))
+                if f.get("ser"):
+                    yield f"drop ser {c['name']}.{f['n']}", edit(
+                        lambda cc, f_i=f_i: cc["fields"][f_i].pop("ser"))
                 t = f["t"]
                 if t[0] in ("opt", "list", "dict") and "d" not in f:
                     pass
